@@ -37,7 +37,8 @@ Known(d) == \E i \in DOMAIN cfg.collectors : cfg.collectors[i].d = d
 Expect(d, c) == IF d # 0 /\ Known(d) /\ Accepts(cfg.collectors[FilterOf(d)].f, c) THEN d ELSE 0
 
 \* C12: reload values in effect during [s, e]
-RAccepts(v, c) == c.lvl <= v.thr /\ c.tgt \in SetOf(v.tgts)
+\* (a reloadable Option<filter> whose value is None is an absent layer: everything passes)
+RAccepts(v, c) == v.none \/ (c.lvl <= v.thr /\ c.tgt \in SetOf(v.tgts))
 \* an EnvFilter value may carry the span-scoped directive [w]=trace: everything inside a span named w is enabled
 RAcceptsIn(v, c, inspan) == RAccepts(v, c) \/ (v.span /\ inspan)
 Completed(s) == {i \in DOMAIN cfg.reloads : cfg.reloads[i].e < s}
